@@ -5,6 +5,16 @@ ROOT = os.path.dirname(os.path.dirname(os.path.abspath(__file__)))
 PROPS = [json.loads(l)["id"] for l in open(os.path.join(ROOT, "properties.jsonl"))]
 
 CLAIMED = {
+ "C11": dict(
+   text="Coq theorems (Props/C11.v, over R, every node count >= 2, arbitrary spacing, every supply order and every query date) about the Gallina model of CurveDF::try_new / interpolated_value / node_index, NodesTimestamp::sort_keys, the hand-written bisection index_left (with its small-size special cases and closed right ends) and the five interpolation rules: index_left returns clamp 0 (n-2) (j-1) for j the first node on or after the date (right-closed intervals, clamped to first/last); every look-up equals the rule's closed form on just the two nodes of that interval (and node 0 for the zero-rate rule); the value at a node date is the node's value (zero-rate: 1 at the first node); the explicit between-node formulas (line, line in logs, line in the zero rate from the first node, left value on [x1,x2), right value on (x1,x2]) with min/max bounds for the first two; dates outside the range use the first/last interval's formula; any permutation of nodes with distinct timestamps builds the same curve (through try_new and through the Python-facing constructor). Tied to rust/curves on every run through CurveDF and the real #[pyclass] Curve (hook), plus index_left on f64 lists exhaustively over positions.",
+   note="Theorems over R (rounding outside; exp/ln paths compared at 1e-9, everything else exactly). Datetime keys collide within one second (IndexMap::from_iter): modelled and exercised. Hooks in rust/verif_hooks.rs (feature verif_hooks) drive the private pymethods through the embedded interpreter.",
+   tech="Coq proof (bisection proved for any decidable total order, sort uniqueness, closed forms by lra/nra/field) + seeded model-vs-code correspondence",
+   ref="DESIGN.md §4 C11"),
+ "C12": dict(
+   text="Coq theorems (Props/C12.v) over the same curve model with Dual / Dual2 node values: set_ad_order tags node i (date order, from 0, also for unsorted input through the Python-facing constructor) of a float curve with '<id><i>' (tags injective); any sequence of switches keeps every node value and every looked-up value (for every numeric structure, floats included), switches between first and second order keep the names, and a float curve after any history equals the curve switched once to the last order; the gradient of a looked-up value is the true partial derivative (Coquelicot is_derive) of the closed form w.r.t. each node value and zero outside the interval used, the Hessian entry (j,k) is the mixed second partial; index_value is base / value, F64 0 before the first node, Err without a base. Tied to rust/curves by seeded scripts of look-ups and 0-8 order switches on curves of all five rules.",
+   note="Gradient theorems assume positive node values (and node count below 2^64 for tag injectivity). Proved by direct symbolic evaluation of the Dual/Dual2 model on two freshly tagged nodes + Coquelicot auto_derive (independent of C01/C02).",
+   tech="Coq proof (real-part homomorphism of the generic interpolators, symbolic evaluation of the dual model, mixed-partial lemma) + seeded script correspondence with shrinking",
+   ref="DESIGN.md §4 C12"),
  "C09": dict(
    text="Coq theorems (Props/C09.v, 12 theorems over R) about the Gallina model of FXRates::try_new / rate (currency index = base first then quote order, i16 edge counts with the code's stop test, seed matrix, the triangulation mut_arrays_remaining_elements as fuelled recursion with the code's node choice — last maximum among unvisited — combinations(2) order and prev/visited handling): quote sets that connect 2..181 currencies as a tree are accepted, never abort, yield all n^2 non-zero rates; every cross equals the product of quotes along ANY walk between the two currencies, inverted when travelled backwards; quoted pairs are returned as quoted, a currency against itself is 1, rate x inverse = 1, independence of quote order and of base; wrong count, mixed settlement dates, disconnected, cyclic, duplicated or inverse-duplicated inputs are errors (accepted => tree, by a leaf-removal argument), never Ok, never abort; the triangulation preserves 'entry = v_i / v_j' for any potential, fuel and visited set; the chosen fuel is never exhausted (termination with progress via simplicial vertices). Tied to rust/fx/rates on every run by a seeded differential run (Pruefer-sequence trees on 2-12 currencies, malformed stream) plus a model-independent oracle on the real code.",
    note="Theorems over R; IEEE rounding and powf(x,-1) are outside (rates compared at 1e-9; quoted pairs bit-exactly on the real code). The bound of 181 currencies is the code's own i16 limit (the property quantifies over 2..12).",
